@@ -63,7 +63,11 @@ def load_gen():
 # ------------------------------------------------------------------------------------------
 # running Kani
 
+# `--output-format old`: CBMC's plain property list.  The JSON route (Kani's default) makes CBMC
+# dump a full trace for every satisfied cover (~175 MB each), which dominated the run time.
+# Kani's own assertion-reachability checks are replaced by one kani::cover! per unit.
 KANI_FLAGS = ["-Z", "stubbing"]
+KANI_RUN_FLAGS = ["--output-format", "old", "--no-assertion-reach-checks"]
 
 
 def _limit():
@@ -85,6 +89,8 @@ def kani_run(crate, target, harness, log, playback=False):
     cmd = ["cargo", "kani"] + KANI_FLAGS + ["--target-dir", target, "--harness", "harnesses::" + harness, "--exact"]
     if playback:
         cmd += ["-Z", "concrete-playback", "--concrete-playback=print"]
+    else:
+        cmd += KANI_RUN_FLAGS
     t = time.time()
     with open(log, "w") as f:
         try:
@@ -97,47 +103,56 @@ def kani_run(crate, target, harness, log, playback=False):
     return rc, time.time() - t
 
 
-CHECK_RE = re.compile(r"^Check \d+: (\S+)\n\t - Status: (\w+)\n\t - Description: \"(.*)\"\n\t - Location: (.*)$", re.M)
+PROP_RE = re.compile(r"^\[(\S+)\] line (\d+) (?:\[KANI_CHECK_ID[^\]]*\] )?(.*): (SUCCESS|FAILURE|ERROR|UNKNOWN)$")
+HEAD_RE = re.compile(r"^(\S+) function (.+)$")
 
 
 def parse_log(text):
-    """Per-check statuses of one harness run."""
+    """Per-check statuses of one harness run (CBMC plain output)."""
     r = {"units": {}, "witness": {}, "refusals": [], "unwind_fail": [], "model_fail": [], "other_fail": [],
-         "undetermined": 0, "checks": 0, "verdict": None, "symex_s": None, "solver_s": 0.0, "time_s": None,
-         "error": None}
-    for m in CHECK_RE.finditer(text):
-        name, status, desc, loc = m.groups()
+         "errors": 0, "checks": 0, "verdict": None, "symex_s": None, "solver_s": 0.0, "error": None}
+    cur_file, cur_fn = "", ""
+    for line in text.splitlines():
+        m = PROP_RE.match(line)
+        if not m:
+            h = HEAD_RE.match(line)
+            if h and not line.startswith("["):
+                cur_file, cur_fn = h.group(1), h.group(2)
+            continue
+        name, lno, desc, status = m.groups()
+        desc = desc.strip().strip('"')
         r["checks"] += 1
+        if status in ("ERROR", "UNKNOWN"):
+            r["errors"] += 1
         if desc.startswith("C07:m:"):
             r["units"][desc[6:]] = status
         elif desc.startswith("C07:witness:"):
-            r["witness"][desc[12:]] = status
+            # a cover is encoded as assert(!cond): FAILURE = satisfiable
+            r["witness"][desc[12:]] = {"FAILURE": "SATISFIED", "SUCCESS": "UNSATISFIABLE"}.get(status, status)
         elif status == "FAILURE":
-            if "unwinding assertion" in desc:
-                r["unwind_fail"].append(loc)
+            if ".unwind." in name or "unwinding assertion" in desc:
+                r["unwind_fail"].append("%s:%s %s" % (cur_file, lno, cur_fn))
             elif desc.startswith("C07-model:"):
                 r["model_fail"].append(desc)
-            elif "dora-asm/src" in loc or "dora_asm::" in loc:
-                r["refusals"].append({"what": desc, "where": loc.split(" in function ")[0].split("/")[-1],
-                                      "function": loc.split(" in function ")[-1]})
+            elif "dora-asm/src" in cur_file or cur_fn.startswith("dora_asm::") or name.startswith("dora_asm::"):
+                r["refusals"].append({"what": desc, "where": "%s:%s" % (os.path.basename(cur_file), lno), "function": cur_fn})
             else:
-                r["other_fail"].append({"what": desc, "where": loc})
-        elif status == "UNDETERMINED":
-            r["undetermined"] += 1
-    m = re.search(r"^VERIFICATION:- (\w+)", text, re.M)
+                r["other_fail"].append({"what": desc, "where": "%s:%s %s" % (cur_file, lno, cur_fn)})
+    m = re.search(r"^VERIFICATION (\w+)", text, re.M)
     if m:
         r["verdict"] = m.group(1)
     m = re.search(r"Runtime Symex: ([\d.e+-]+)s", text)
     if m:
         r["symex_s"] = float(m.group(1))
     r["solver_s"] = round(sum(float(x) for x in re.findall(r"Runtime decision procedure: ([\d.e+-]+)s", text)), 2)
-    m = re.search(r"Verification Time: ([\d.]+)s", text)
-    if m:
-        r["time_s"] = float(m.group(1))
-    if "out of memory" in text.lower() or "CBMC failed" in text or "std::bad_alloc" in text:
+    low = text.lower()
+    if "out of memory" in low or "bad_alloc" in low or "cbmc failed" in low or "cbmc crashed" in low:
         r["error"] = "cbmc failed / out of memory"
-    if re.search(r"^error(\[|:)", text, re.M) and r["verdict"] is None:
-        r["error"] = "kani error: " + re.search(r"^error.*$", text, re.M).group(0)[:300]
+    elif r["errors"]:
+        r["error"] = "%d checks with status ERROR/UNKNOWN" % r["errors"]
+    elif r["verdict"] is None:
+        e = re.search(r"^error.*$", text, re.M)
+        r["error"] = ("kani error: " + e.group(0)[:300]) if e else "no verdict"
     return r
 
 
@@ -405,6 +420,19 @@ def _fmt(o):
     return str(o)
 
 
+def exp_for_llvm(rec):
+    """The expected instruction as llvm-mc should read it: the accepted alternative if that is
+    what was emitted; for label units the displacement is whatever reaches the (checked) target."""
+    e = rec["expected"]
+    d = rec.get("decoded")
+    if rec.get("alt") is not None and d is not None and d["opsize"] != e["opsize"]:
+        e = rec["alt"]
+    e = json.loads(json.dumps(e))
+    if rec.get("target") is not None and d is not None:
+        e["mem"]["disp"] = d["mem"]["disp"]
+    return e, (d["rel"] if d is not None else 0)
+
+
 def insn_bytes(rec):
     at, n = rec["at"], rec["insn_len"]
     if n == 0:
@@ -468,8 +496,8 @@ def oracle_validation(manifest, binary, per_unit=10):
     def one(item):
         (u, vals), r = item
         lines = llvm_disasm(insn_bytes(r))
-        ok, want = att_agree(r["expected"] if r["alt"] is None or r["decoded"]["opsize"] == r["expected"]["opsize"] else r["alt"],
-                             r["decoded"]["rel"], lines)
+        e, rel = exp_for_llvm(r)
+        ok, want = att_agree(e, rel, lines)
         return u["name"], vals, r["bytes"], lines, want, ok
 
     with concurrent.futures.ThreadPoolExecutor(max_workers=min(8, jobs())) as ex:
@@ -502,7 +530,13 @@ def confirm_native(binary, unit, vals):
     if rec["status"] != "emitted" or not rec["mismatch"]:
         return False, rec, None, False, ""
     lines = llvm_disasm(insn_bytes(rec))
-    agree, want = att_agree(rec["expected"], rec["decoded"]["rel"] if rec["decoded"] else 0, lines)
+    e, rel = exp_for_llvm(rec)
+    if rec.get("target") is not None and "target" in rec["mismatch"]:
+        # llvm-mc cannot know where the label is: the target computation is ours; the second
+        # opinion is on the displacement value, shown in the report
+        agree, want = False, att_agree(e, rel, lines)[1] + " ; target %s" % rec["target"]
+    else:
+        agree, want = att_agree(e, rel, lines)
     only_legal = rec["mismatch"] == ["legal"]
     # llvm-mc confirms when it, too, does not read the expected instruction (or, for an
     # illegal operand that was accepted, when there is nothing for it to contradict)
@@ -674,6 +708,7 @@ def main(tier):
             "functions_encoded": manifest["functions_encoded"],
             "unspecified": manifest["unspecified"],
             "spec_entries_without_method": manifest["spec_entries_without_method"],
+            "restricted_to": manifest.get("restricted_to") or None,
             "harnesses": len(groups),
             "failing_units": [u for _, u in failing],
             "counterexamples": cex_info,
@@ -700,6 +735,8 @@ def main(tier):
                 "refusals (panics) of legal operands are recorded in refusals_seen, not reported as violations",
             ],
         }
+        if manifest.get("restricted_to"):
+            coverage["outside_the_claim"].insert(0, "PARTIAL RUN (C07_ONLY_METHODS): only %s were checked" % manifest["restricted_to"])
         assumptions = [
             "the spec table /verif/spec/x64.toml states what each method is asked to emit (naming convention + Intel SDM)",
             "an assertion failure inside dora-asm is a refusal, which the property allows",
